@@ -1457,15 +1457,16 @@ class Net(Stream):
                 samples.append({"case": line.split(" ", 1)[1][:300], "impl": i[:300]})
         res = {"evaluations": len(cases), "distinct_nontrivial": nontriv, "rule": self.rule, "samples": samples, "histogram": hist,
                "disagreements": [], "failures": fails, "timing_retries": retried, "not_reproduced_alone": transient, "model_impl_agree": len(cases)}
-        if self.focus == "timing":
+        if self.focus in ("timing", "wire"):
             self.timed_model_side(cases, tier, res)
         return res
 
     def timed_model_side(self, cases, tier, res):
-        """the extracted timed machines (Timed.v: retry loop, TCP fallback, TCP reads of both client families, exact
-        timers) on the very scenarios the real clients just ran, and on random scenarios with arrivals on and around
-        the attempt / lifetime boundaries (no network): transmissions, exchanges, result and the end of the call must
-        be what the code-blind expectation says — which the real clients were just held to within the tolerance"""
+        """the extracted timed machines (Timed.v: the whole API call — refusals, prepare_message, retry loop, TCP
+        fallback, TCP reads of both client families, exact timers) on the very scenarios the real clients just ran,
+        and (timing) on random scenarios with arrivals on and around the attempt / lifetime boundaries (no network):
+        the bytes of every transmission and of the TCP write, transmissions, exchanges, result and the end of the
+        call must be what the code-blind expectation says — which the real clients were just held to"""
         import random as _r
         lines, info = [], {}
         for line in cases:
@@ -1478,7 +1479,7 @@ class Net(Stream):
                 lines.append(ml)
                 info["m" + cid] = (sc, line)
         rng = _r.Random(len(cases) * 7919 + int(os.environ.get("VERIF_SEED", "20260930")))
-        for i in range(600 if tier == "quick" else 6000):
+        for i in range((600 if tier == "quick" else 6000) if self.focus == "timing" else 0):
             sc = NG.gen_timed_random(rng, NG.CLIENTS[i % 4])
             ml = NG.timed_model_line("r%d" % i, sc, sc.queries[0])
             if ml:
